@@ -1,2 +1,156 @@
-"""C13 - see codec_props.py"""
-from .codec_props import run_prop as run
+"""C13 - tags on the wire are exactly the type's tags (codec_props.plan_c13), plus the tag algebra itself: every history
+of tagging operations of spec/Tags.tla replayed into pyasn1.type.tag.TagSet / Asn1Type.subtype / TagMap."""
+import json
+import os
+
+from pyasn1 import error
+from pyasn1.type import tag, tagmap, univ, namedtype
+
+from .. import core, tlc, tlaval
+from . import codec_props
+
+CLS = {0: tag.tagClassUniversal, 1: tag.tagClassApplication, 2: tag.tagClassContext, 3: tag.tagClassPrivate}
+
+
+def mk(t):
+    return tag.Tag(CLS[t['c']], tag.tagFormatConstructed if t['k'] else tag.tagFormatSimple, t['n'])
+
+
+def obs(ts):
+    return [[x.tagClass >> 6, 1 if x.tagFormat else 0, int(x.tagId)] for x in ts.superTags]
+
+
+def base_objects(base):
+    """(TagSet built directly, type object carrying it) for a model base"""
+    if not base:
+        return tag.TagSet(), univ.Any()
+    if base[0]['n'] == 2:
+        return tag.initTagSet(mk(base[0])), univ.Integer()
+    return tag.initTagSet(mk(base[0])), univ.Sequence(componentType=namedtype.NamedTypes())
+
+
+def replay_state(s):
+    out = []
+    want = s['want']
+    try:
+        ts, obj = base_objects(s['base'])
+        refused = False
+        for op in s['hist']:
+            t = mk(op['t'])
+            try:
+                ts2 = ts.tagImplicitly(t) if op['o'] == 'I' else ts.tagExplicitly(t)
+            except error.PyAsn1Error:
+                ts2 = None
+            try:
+                obj2 = obj.subtype(implicitTag=t) if op['o'] == 'I' else obj.subtype(explicitTag=t)
+            except error.PyAsn1Error:
+                obj2 = None
+            if (ts2 is None) != (obj2 is None):
+                out.append('TagSet and subtype() disagree on refusing %s' % (op,))
+            if ts2 is None or obj2 is None:
+                refused = True
+                break
+            ts, obj = ts2, obj2
+        if refused != (not want['ok']):
+            out.append('refused=%s, model ok=%s' % (refused, want['ok']))
+        if want['ok']:
+            for name, x in (('TagSet', ts), ('subtype().tagSet', obj.tagSet)):
+                if obs(x) != want['tags']:
+                    out.append('%s %s, model %s' % (name, obs(x), want['tags']))
+                if len(x) != len(want['tags']):
+                    out.append('%s len %d' % (name, len(x)))
+            if ts != obj.tagSet or hash(ts) != hash(obj.tagSet):
+                out.append('the two constructions are not equal / hash differently')
+            # equality ignores the form bit; a different number or class does not compare equal
+            if want['tags']:
+                flipped = tag.TagSet((), *[tag.Tag(y.tagClass, y.tagFormat ^ 0x20, y.tagId) for y in ts.superTags])
+                if flipped != ts:
+                    out.append('equality depends on the form bit')
+                other = tag.TagSet((), *[tag.Tag(y.tagClass, y.tagFormat, y.tagId + (1 if i == len(ts) - 1 else 0)) for i, y in enumerate(ts.superTags)])
+                if other == ts:
+                    out.append('equality ignores the tag number')
+            # prefix relation
+            bts, _ = base_objects(s['base'])
+            if bool(bts.isSuperTagSetOf(ts)) != want['base_is_prefix']:
+                out.append('base.isSuperTagSetOf(result) = %s, model %s' % (bts.isSuperTagSetOf(ts), want['base_is_prefix']))
+            if bool(ts.isSuperTagSetOf(bts)) != want['is_prefix_of_base']:
+                out.append('result.isSuperTagSetOf(base) = %s, model %s' % (ts.isSuperTagSetOf(bts), want['is_prefix_of_base']))
+            # tag map lookups: present = {result}, skip = {base}, with and without a default
+            marker, dflt = univ.Null(), univ.Boolean()
+            for has_default, exp in ((True, want['lookup_d']), (False, want['lookup_n'])):
+                tm = tagmap.TagMap({ts: marker}, {bts: marker} if bts != ts else {}, dflt if has_default else None)
+                for probe, e in zip((ts, bts, tag.initTagSet(tag.Tag(tag.tagClassPrivate, 0, 999))), exp):
+                    try:
+                        got = 'present' if tm[probe] is marker else 'default'
+                    except (KeyError, error.PyAsn1Error):      # unknown key / key in the negative map
+                        got = 'refused'
+                    if (probe in tm) != (got != 'refused'):
+                        out.append('`in` and [] disagree for %s' % (obs(probe),))
+                    if got != e:
+                        out.append('TagMap(default=%s)[%s] -> %s, model %s' % (has_default, obs(probe), got, e))
+    except Exception as ex:   # noqa
+        out.append('crash %s: %s' % (type(ex).__name__, ex))
+    return out
+
+
+def tags_part(ctx, sc):
+    maxops = 3 if ctx.quick else 4
+    with open(sc.file('MC_tags.tla'), 'w') as f:
+        f.write('''---- MODULE MC_tags ----
+EXTENDS Tags
+VARIABLE want
+Probe == <<Tag(3, 0, 999)>>
+WantOf(b, c, o) == [ok |-> o, tags |-> [i \\in 1..Len(c) |-> <<c[i].c, c[i].k, c[i].n>>],
+                    base_is_prefix |-> IsPrefix(b, c), is_prefix_of_base |-> IsPrefix(c, b),
+                    lookup_d |-> << Lookup({c}, IF Keys(b) = Keys(c) THEN {} ELSE {b}, TRUE, c), Lookup({c}, IF Keys(b) = Keys(c) THEN {} ELSE {b}, TRUE, b),
+                                    Lookup({c}, IF Keys(b) = Keys(c) THEN {} ELSE {b}, TRUE, Probe) >>,
+                    lookup_n |-> << Lookup({c}, IF Keys(b) = Keys(c) THEN {} ELSE {b}, FALSE, c), Lookup({c}, IF Keys(b) = Keys(c) THEN {} ELSE {b}, FALSE, b),
+                                    Lookup({c}, IF Keys(b) = Keys(c) THEN {} ELSE {b}, FALSE, Probe) >>]
+MCInit == Init /\\ want = WantOf(base, cur, okv)
+MCNext == Next /\\ want' = WantOf(base', cur', okv')
+====
+''')
+    with open(sc.file('MC_tags.cfg'), 'w') as f:
+        f.write('INIT MCInit\nNEXT MCNext\nCONSTANT MaxOps = %d\nINVARIANT TypeOK\nINVARIANT BaseIsPrefix\nCHECK_DEADLOCK FALSE\n' % maxops)
+    dump = sc.file('tags.dump')
+    r = tlc.run(sc.file('MC_tags.tla'), sc.file('MC_tags.cfg'), sc, dump=dump, timeout=3000)
+    ctx.add_tlc('Tags machine: histories of <= %d tagging operations' % maxops, r)
+    if not r.ok:
+        raise core.Machinery('Tags model run failed: %s %s\n%s' % (r.violated, r.errors[:2], r.out[-1500:]))
+    # the action properties are checked on the machine without the bookkeeping variable
+    with open(sc.file('MC_tagsp.cfg'), 'w') as f:
+        f.write('SPECIFICATION Spec\nCONSTANT MaxOps = %d\nPROPERTY ImplicitKeepsShape\nPROPERTY ExplicitAddsOne\n'
+                'PROPERTY UniversalExplicitRefused\nCHECK_DEADLOCK FALSE\n' % maxops)
+    r2 = tlc.run(os.path.join(tlc.SPEC, 'Tags.tla'), sc.file('MC_tagsp.cfg'), sc, timeout=3000)
+    ctx.add_tlc('Tags machine: action properties (implicit keeps the shape, explicit adds one constructed tag, UNIVERSAL refused)', r2)
+    if not r2.ok:
+        raise core.Machinery('Tags properties failed: %s %s\n%s' % (r2.violated, r2.errors[:2], r2.out[-1500:]))
+    states = list(tlaval.parse_dump(open(dump).read()))
+    os.remove(dump)
+    states.sort(key=lambda s: json.dumps(s, sort_keys=True))
+    res = core.pmap(replay_state, states, chunksize=512)
+    bad = 0
+    for s, divs in zip(states, res):
+        ctx.evaluations += 1
+        if divs:
+            bad += 1
+            ctx.report('tag algebra: base %s, operations %s: %s' % (s['base'], [(o['o'], o['t']['c'], o['t']['k'], o['t']['n']) for o in s['hist']], '; '.join(divs[:3])),
+                       {'clause': 'TagAlgebra', 'part': 'tags', 'ops': sorted({o['o'] for o in s['hist']})},
+                       {'prop': 'C13', 'kind': 'tags', 'state': s, 'divergences': divs})
+    ctx.traces += len(states) - bad
+    ctx.keys.add(('tags', len(states)))
+    flipped = json.loads(json.dumps(next(s for s in states if s['want']['ok'] and s['want']['tags'])))
+    flipped['want']['tags'][-1][1] ^= 1
+    if not replay_state(flipped):
+        raise core.Machinery('tags replay self-test failed')
+    ctx.extra['tags'] = ('%d histories of spec/Tags.tla replayed into TagSet.tagImplicitly/tagExplicitly, subtype(), equality, '
+                         'isSuperTagSetOf and TagMap lookups (self-test: a flipped form bit in the model is noticed)' % len(states))
+    ctx.sample({'tagging history': states[len(states) // 2]})
+
+
+def run(ctx):
+    codec_props.run_prop(ctx)
+    with tlc.Scratch('c13tags') as sc:
+        tags_part(ctx, sc)
+    ctx.rule += ('; plus every history of <= 3 (quick) / 4 (thorough) implicit/explicit tagging operations (3 classes x 2 forms x '
+                 '{0, 31}) on INTEGER, SEQUENCE and an untagged base, generated by spec/Tags.tla and replayed into the tag algebra')
